@@ -91,8 +91,26 @@ REF(casecmp) { size_t i; for (i = 0; i < dn && i < sn && up(d[i]) == up(s[i]); i
 REF(wcmp) { size_t i; for (i = 0; i < dn && i < sn && d[i] == s[i]; i++); long a = i < dn ? (long)(int32_t)d[i] : 0, b = i < sn ? (long)(int32_t)s[i] : 0; e->status = EOK; e->val = sgn(a - b); }
 REF(wicmp) { size_t i; for (i = 0; i < dn && i < sn && towlower(d[i]) == towlower(s[i]); i++); long a = i < dn ? (long)towlower(d[i]) : 0, b = i < sn ? (long)towlower(s[i]) : 0; e->status = EOK; e->val = sgn(a - b); }
 static int g_fold;
+/* natural order on strings whose digit runs have no leading zero and that contain no blanks: digit runs compare by value (longer run = larger,
+ * equal length = first differing digit), everything else by character code (after optional case folding); the end of a string sorts first */
+static int nat_ref(const uint32_t *a, size_t an, const uint32_t *b, size_t bn, int fold) {
+    size_t i = 0, j = 0;
+    for (;;) {
+        uint32_t ca = i < an ? a[i] : 0, cb = j < bn ? b[j] : 0;
+        if (ca >= '0' && ca <= '9' && cb >= '0' && cb <= '9') {
+            size_t i2 = i, j2 = j; while (i2 < an && a[i2] >= '0' && a[i2] <= '9') i2++; while (j2 < bn && b[j2] >= '0' && b[j2] <= '9') j2++;
+            if (i2 - i != j2 - j) return i2 - i < j2 - j ? -1 : 1;
+            for (size_t k = 0; k < i2 - i; k++) if (a[i + k] != b[j + k]) return a[i + k] < b[j + k] ? -1 : 1;
+            i = i2; j = j2; continue;
+        }
+        if (!ca && !cb) return 0;
+        if (fold) { ca = up(ca); cb = up(cb); }
+        if (ca != cb) return ca < cb ? -1 : 1;
+        i++; j++;
+    }
+}
 REF(natcmp) { /* only what any order must satisfy: equal strings (after optional case folding) compare 0, different strings do not */
-    int eq = dn == sn; for (size_t i = 0; eq && i < dn; i++) if (g_fold ? (up(d[i]) != up(s[i])) : (d[i] != s[i])) eq = 0; e->status = EOK; e->val = eq ? 0 : 99;
+    int eq = dn == sn; for (size_t i = 0; eq && i < dn; i++) if (g_fold ? (up(d[i]) != up(s[i])) : (d[i] != s[i])) eq = 0; e->status = EOK; e->val = eq ? 0 : nat_ref(d, dn, s, sn, g_fold);
     for (size_t i = 0; i < dn; i++) if (d[i] == ' ' || d[i] == '0') e->skip = 1;   /* natural order skips blanks / leading zeros: not an equality question */
     for (size_t i = 0; i < sn; i++) if (s[i] == ' ' || s[i] == '0') e->skip = 1; }
 REF(memcmpx) { size_t i; (void)dn; for (i = 0; i < sn && d[i] == s[i]; i++); e->status = EOK; e->val = i < sn ? sgn((long)d[i] - (long)s[i]) : 0; }
@@ -366,7 +384,7 @@ static void run_case(const qdesc *q, qscn *s, long idx) {
             default: have = 0;
             }
             if (q->rk != RK_BOOL && q->rk != RK_LEN && (int)Q.ret != e.status) rule = "status-differs-from-reference";
-            else if (have && q->ref == r_natcmp) { if ((e.val == 0) != (got == 0)) rule = "equality-differs-from-reference"; }
+            else if (have && q->ref == r_natcmp) { if ((e.val == 0) != (got == 0)) rule = "equality-differs-from-reference"; else if (got != e.val) rule = "sign-differs-from-natural-order"; }
             else if (have && got != e.val) rule = "value-differs-from-reference";
             if (rule && want("C10")) {
                 snprintf(key, sizeof key, "%s|%s|%s|%s|want=%s|got=%s", q->name, rule, valid_ops ? "valid-operands" : (s->dterm && s->dl < s->dmax) ? "src-bounded-by-slen" : "dest-bounded-by-dmax",
@@ -473,6 +491,18 @@ static void gen(int qi) {
             memset(&s, 0, sizeof s); s.dl = dl; if (dl > 38) continue; str_from(s.d, dl, dl * 7 + k, ns, al);
             s.dterm = dt; s.dmax = dl + dt + extra[k]; if (s.dmax > q->limit) s.dmax = q->limit; s.dobj_short = 1; s.sterm = 1; s.bos = 1;
             long idx = g_idx++; if (!pick(idx)) continue; g_shm->cur = idx; run_case(q, &s, idx);
+        }
+    }
+    /* pass F: natural-order comparisons over letters and digits (no leading zeros, no blanks: the part of the order that is unambiguous) */
+    if (q->ref == r_natcmp) {
+        static const uint32_t NAT[] = {'a', 'B', '1', '2', '9', 'b'};
+        size_t ml = g_tier ? ((q->fl & QF_WIDE) ? 3 : 4) : 3;
+        for (size_t dl = 0; dl <= ml; dl++) for (unsigned long dc = 0; dc < ipow(6, dl); dc++)
+        for (size_t sl = 0; sl <= ml; sl++) for (unsigned long sc = 0; sc < ipow(6, sl); sc++) for (int fold = 0; fold < 2; fold++) {
+            long idx = g_idx++; if (!pick(idx)) continue; if (!g_tier && (idx / 2) % 5) continue;
+            memset(&s, 0, sizeof s); s.dl = dl; s.sl = sl; str_from(s.d, dl, dc, 6, NAT); str_from(s.s, sl, sc, 6, NAT);
+            s.dterm = 1; s.sterm = 1; s.dmax = dl + 1 + (idx % 3); s.slen = (q->fl & QF_SLEN) ? sl + 1 + (idx % 2) : 0; s.fold = fold; s.bos = (int)((idx / 2) & 1);
+            g_shm->cur = idx; run_case(q, &s, idx);
         }
     }
     /* pass D: longer haystacks with repeated partial matches for the two-operand searches */
